@@ -60,8 +60,9 @@ spec("fw_asym",
      hosts={(1, 0): H("linux", ["ssh", "http"], ["tomcat"]),
             (2, 0): H("linux", ["ssh"], ["tomcat"]),
             (3, 0): H("windows", ["ftp", "ssh"], [])},
-     exploits={"e_http": E("http", None, 0.9, 2, U), "e_ssh": E("ssh", "linux", 0.8, 1.5, U),
-               "e_ftp": E("ftp", "windows", 0.5, 1, R)},
+     # probabilities with three decimals (0.796 is not 0.8, 0.004 is not 0)
+     exploits={"e_http": E("http", None, 0.9, 2, U), "e_ssh": E("ssh", "linux", 0.796, 1.5, U),
+               "e_ftp": E("ftp", "windows", 0.004, 1, R)},
      privescs={"pe_tomcat": P("tomcat", "linux", 1.0, 1, R)},
      fw={(0, 1): ["http"], (1, 0): [], (1, 2): ["ssh"], (2, 1): [], (1, 3): [], (3, 1): ["ftp"],
          (2, 3): ["ftp"], (3, 2): ["ssh"]},
